@@ -483,11 +483,28 @@ func parseRealms(lines []string) (realms []Realm, err error) {
 					}
 					err = e
 				}
-				realms = append(realms, r)
+				realms = addRealm(realms, r)
 			}
 		}
 	}
 	return
+}
+
+// addRealm adds r to realms. The settings of a realm that is configured in more than one block are merged.
+func addRealm(realms []Realm, r Realm) []Realm {
+	for i := range realms {
+		if realms[i].Realm == r.Realm {
+			realms[i].AdminServer = append(realms[i].AdminServer, r.AdminServer...)
+			if r.DefaultDomain != "" {
+				realms[i].DefaultDomain = r.DefaultDomain
+			}
+			realms[i].KDC = append(realms[i].KDC, r.KDC...)
+			realms[i].KPasswdServer = append(realms[i].KPasswdServer, r.KPasswdServer...)
+			realms[i].MasterKDC = append(realms[i].MasterKDC, r.MasterKDC...)
+			return realms
+		}
+	}
+	return append(realms, r)
 }
 
 // DomainRealm maps the domains to realms representing the [domain_realm] section of the configuration.
@@ -626,7 +643,10 @@ func NewFromScanner(scanner *bufio.Scanner) (*Config, error) {
 				}
 				e = err
 			}
-			c.Realms = realms
+			// a section may appear more than once: later ones add to what is there
+			for _, r := range realms {
+				c.Realms = addRealm(c.Realms, r)
+			}
 		case "domain_realm":
 			err := c.DomainRealm.parseLines(lines[start:end])
 			if err != nil {
